@@ -17,7 +17,13 @@ RULE = ("catalogue (every concurrency setting -5..1000 x list lengths 1..5; ever
         "silent upstreams; tag subsets incl. repeats, reversed, blank and unknown tags; all-at-once races; one exchange ended "
         "by the upstream's own 5 s deadline) + seeded random scripts over Forward.Exec / QuickConfigureExec on in-memory "
         "upstreams (list 1..5, concurrency in {-1,0,1,2,3,4,9}, random release order, partial release, cancellation with and "
-        "without cause, 3/4 one-at-a-time and 1/4 all-at-once) + NewForward over loopback UDP servers; a case is non-trivial "
+        "without cause, 3/4 one-at-a-time and 1/4 all-at-once) + NewForward over loopback UDP servers + late-helper cases "
+        "(run alone on one processor with Exec called synchronously: the context has already ended, or the first upstream "
+        "reached answers NOERROR at once, so Exec returns before some helper goroutines have started; the driver then packs "
+        "six other queries of the same size through pool.PackBuffer, recycling the released query buffer, and only then "
+        "lets the late helpers reach their upstreams; concurrency 1,2,3,9 x lists of 1,2,4); in every case the bytes each "
+        "upstream call received are compared with this call's packed query and must sit in a buffer of their own; "
+        "a case is non-trivial "
         "when at least two upstreams are queried and a bad outcome arrives before a good one or the context is cancelled "
         "among the events, or when the selection wraps around a list shorter than the concurrency; distinct = distinct Gallina literal")
 ASSUMPTIONS = [
@@ -27,6 +33,9 @@ ASSUMPTIONS = [
     "that the driver reads from that context)",
     "miekg/dns Unpack decides parsable / unparsable; rcodes 0 and 3 are dns.RcodeSuccess / dns.RcodeNameError",
     "math/rand/v2 IntN(n) returns a value in [0, n); its distribution is not claimed",
+    "late-helper cases rely on the Go scheduler only to PRODUCE the schedule (one P: goroutines started by Exec do not "
+    "run before the calling goroutine blocks); if it preempts anyway the case degrades to an ordinary one, the verdict "
+    "on correct code does not depend on it",
 ]
 TRUSTED_BASE = [
     "hand-written model coq/Model/Forward.v tied to plugin/executable/forward/forward.go by differential execution "
